@@ -7,17 +7,22 @@ from .common import cfloat, cnat, clist
 
 MANIFEST = {
     "text": "Coq 8.16 theorems over a tree model of composed models (walk, id-ordered unique priors, instance construction for "
-            "Model/Collection/tuple/arithmetic nodes): parameter count = number of distinct priors, advertised order strictly "
+            "Model/Collection/tuple/binary-arithmetic/unary (-p, abs(p)) nodes): parameter count = number of distinct priors, advertised order strictly "
             "increasing in id, the i-th vector entry is found at the i-th advertised path (structural paths and tuple members; every advertised "
             "path is classified) and at every structural path of the i-th parameter, constants untouched, "
-            "derived and tuple values (members of every kind) computed from the same assignment, frame property, vector / unit-vector / path routes agree "
+            "derived and tuple values (members of every kind) computed from the same assignment, a unary node contributes exactly its operand's "
+            "parameters and holds op(operand value), subtraction as built (a + (-b)), % and // with Python's meaning (CPython's binary64 algorithm; "
+            "over Q the remainder has the sign of the divisor), frame property, vector / unit-vector / path routes agree "
             "(any choice of paths, last entry wins), items of a collection addressed by name at whatever position (item order irrelevant; "
             "numeric names are not positions); tied to the code by a "
             "bit-exact vm_compute correspondence on generated composition programs (two-sided abstraction; second sweep: object_for_path at every "
             "advertised path and the instance accessors vs prior_at / lookup) and a direct property oracle",
     "note": "Trusted: Coq kernel + vm_compute; the harness's raw __dict__ abstraction of live model objects and instances; the "
             "composition API itself is compared with the generator's expected tree. Not modelled: AnnotationPriorModel, deferred "
-            "arguments, Array models and the arithmetic forms -, **, neg, abs (oracle only: ModelTree has no node for them), jax pytrees; "
+            "arguments, Array models, the arithmetic forms ** // % and af.Log / af.Log10 (no exact value semantics: oracle only; "
+            "-, neg, abs are ModelTree nodes since ext-tree: NUn, a - b = NBin OAdd a (NUn UNeg b)), a unary form of a float (not "
+            "API-constructible; the model gives IMissing, the code raises AttributeError -- or, below a binary prior whose "
+            "try/except swallows it, yields the operand object), jax pytrees; "
             "value_for of the priors enters the unit route as a table; attribute names of arithmetic priors are read from the live object.",
     "technique": "machine-checked proof in Coq (hand-written tree model) + vm_compute correspondence",
 }
@@ -25,6 +30,41 @@ MANIFEST = {
 
 def unhex(s):
     return float(s) if s in ("nan", "inf", "-inf") else float.fromhex(s)
+
+
+_NP = None
+_NP_SRC = """
+import sys, numpy as np
+def h(v):
+    return 'nan' if v != v else ('inf' if v == float('inf') else ('-inf' if v == float('-inf') else float(v).hex()))
+for line in sys.stdin:
+    op, x = line.split()
+    x = float(x) if x in ('nan', 'inf', '-inf') else float.fromhex(x)
+    with np.errstate(all='ignore'):
+        v = np.log(x) if op == 'log' else np.log10(x)
+    sys.stdout.write('= ' + h(float(v)) + chr(10)); sys.stdout.flush()
+"""
+
+
+def np_log(op, a):
+    """numpy's log / log10 of one float (the harness interpreter has no numpy: a helper process under the drivers' python)."""
+    global _NP
+    import subprocess
+    if _NP is None or _NP.poll() is not None:
+        _NP = subprocess.Popen([common.PY, "-W", "ignore", "-c", _NP_SRC], stdin=subprocess.PIPE, stdout=subprocess.PIPE,
+                               stderr=subprocess.DEVNULL, text=True, bufsize=1)
+    _NP.stdin.write("%s %s\n" % (op, MG_hex(a)))
+    _NP.stdin.flush()
+    while True:
+        line = _NP.stdout.readline()
+        if not line:
+            raise RuntimeError("numpy helper died")
+        if line.startswith("= "):
+            return line[2:].strip()
+
+
+def MG_hex(v):
+    return "nan" if v != v else ("inf" if v == float("inf") else ("-inf" if v == float("-inf") else v.hex()))
 
 
 def vec_inside(rng, pool, mode="inside"):
@@ -145,7 +185,7 @@ def gen_cases(ctx, n):
         ext = rng.random() < 0.75      # a quarter of the programs stay in the original (ModelTree-only) shapes
         g = MG.Gen(rng, max_depth=2 if ctx.tier == "quick" else 4, big_tuples=True, arrays=True,
                    families=("uniform", "uniform", "uniform", "gaussian", "loguniform"),
-                   tuple_member_kinds=ext, underscore_classes=ext, more_ops=ext, more_forms=ext, defaults=ext,
+                   tuple_member_kinds=ext, underscore_classes=ext, more_ops=ext, more_forms=ext, defaults=ext, log_ops=ext,
                    numeric_names=ext)
         prog = g.program()
         if len(prog["pool"]) > 40:
@@ -198,6 +238,10 @@ def apply_op(op, a, b):
         return a - b
     if op == "**":
         return a ** b
+    if op == "%":
+        return a % b           # Python: the sign of the divisor
+    if op == "//":
+        return a // b
     raise ValueError(op)
 
 
@@ -214,6 +258,10 @@ def expected_instance(e, vec):
         return {"t": "v", "v": apply_op(e["op"], a, b).hex()}
     if t == "unary":
         a = unhex(expected_instance(e["a"], vec)["v"])
+        if e["op"] in ("log", "log10"):
+            # the library calls numpy; np.log and math.log differ in the last bit on ~8% of inputs, so the statement
+            # "the value is log of the operand's value from the same assignment" is evaluated with numpy's function
+            return {"t": "v", "v": np_log(e["op"], a)}
         return {"t": "v", "v": (-a if e["op"] == "neg" else abs(a)).hex()}
     if t == "tuple":
         return {"t": "tup", "vs": [expected_instance(m, vec) for m in e["members"]]}
@@ -237,7 +285,8 @@ def same_inst(a, b):
     if a["t"] == "tup":
         return len(a["vs"]) == len(b["vs"]) and all(same_inst(x, y) for x, y in zip(a["vs"], b["vs"]))
     if a["t"] == "arr":
-        return a["shape"] == b["shape"] and [unhex(x) for x in a["vs"]] == [unhex(x) for x in b["vs"]]
+        xs, ys = [unhex(x) for x in a["vs"]], [unhex(x) for x in b["vs"]]      # (nan = nan, as for scalars: log of a negative value)
+        return a["shape"] == b["shape"] and len(xs) == len(ys) and all(x == y or (x != x and y != y) for x, y in zip(xs, ys))
     if a["t"] in ("obj", "coll"):
         if a.get("cls") != b.get("cls") or len(a["fields"]) != len(b["fields"]):
             return False
@@ -270,7 +319,7 @@ def navigate(inst, path):
 
 
 def has_division_by_zero(e, vec):
-    if e["t"] == "arith" and e["op"] == "/":
+    if e["t"] == "arith" and e["op"] in ("/", "%", "//"):
         if has_division_by_zero(e["l"], vec) or has_division_by_zero(e["r"], vec):
             return True
         try:
@@ -441,10 +490,10 @@ def oracle(c, r, root, vec_hex, unit_hex, stats, skip_inst=False):
     return None
 
 
-def coq_case(r, vec_hex, cmp_inst=True):
+def coq_case(r, vec_hex, cmp_inst=True, cmp_unit=True):
     tree = r["tree"]
     fl = lambda xs: clist([cfloat(unhex(x)) for x in xs])
-    unit_ok = cmp_inst and "ok" in r["vec_from_unit"] and "ok" in r["inst_unit"]
+    unit_ok = cmp_inst and cmp_unit and "ok" in r["vec_from_unit"] and "ok" in r["inst_unit"]
     return ("{| c_tree := %s; c_vec := %s; c_paths := %s; c_upaths := %s; c_count := %s; c_ids := %s; "
             "c_inst := %s; c_pv := %s; c_inst_paths := %s; c_unit_vec := %s; c_inst_unit := %s; "
             "c_cmp_inst := %s |}") % (
@@ -493,8 +542,38 @@ def classes_of(c):
     return sorted(cl) + ["feature:" + f for f in c["program"]["features"]]
 
 
-def uses_ops2(root):
-    return any_node(root, lambda e: e["t"] == "unary" or (e["t"] == "arith" and e["op"] in ("-", "**")))
+def uses_pow(root):
+    return any_node(root, lambda e: e["t"] == "arith" and e["op"] == "**")
+
+
+def tree_features(t, acc=None, under=None):
+    """Which of the new ModelTree features a sent tree exercises (for the distribution report)."""
+    acc = set() if acc is None else acc
+    k = t["t"]
+    if k == "unary":
+        acc.add("NUn " + t["op"])
+        acc.add("NUn operand:" + t["a"]["t"])
+        if under == "unary":
+            acc.add("NUn under NUn")
+        if under == "tuple":
+            acc.add("NUn as tuple member")
+        tree_features(t["a"], acc, "unary")
+    elif k == "arith":
+        if t["op"] == "+" and t["r"]["t"] == "unary" and t["r"]["op"] == "neg":
+            acc.add("a - b (NBin OAdd a (NUn UNeg b))")
+        if t["op"] == "+" and t["l"]["t"] == "unary" and t["l"]["op"] == "neg" and t["r"]["t"] == "const":
+            acc.add("const - b (NBin OAdd (NUn UNeg b) const)")
+        if t["op"] in ("%", "//"):
+            acc.add("NBin %s (%s %s %s)" % ({"%": "OMod", "//": "OFloorDiv"}[t["op"]], t["l"]["t"], t["op"], t["r"]["t"]))
+        tree_features(t["l"], acc, "arith")
+        tree_features(t["r"], acc, "arith")
+    elif k == "tuple":
+        for _, c in t["members"]:
+            tree_features(c, acc, "tuple")
+    elif k in ("model", "coll"):
+        for _, c in t["attrs"]:
+            tree_features(c, acc, k)
+    return acc
 
 
 def coq_rcase(r, vec_hex, root):
@@ -571,8 +650,8 @@ def run(ctx):
     ctx.rule = ("composition programs over importable classes (float / tuple (arity 2..13) / nested-class (depth <= 3) / list-valued arguments; "
                 "argument names with '_'), keyword arguments supplied or omitted (config-default priors), whole TuplePriors with members out of "
                 "index order, collections from list/dict/kwargs/append/varargs/__setitem__/raw nested lists, array models (elements assigned out "
-                "of index order; oracle only), shared priors, float and int constants, arithmetic priors (+ * / in the Coq model; - ** neg abs "
-                "oracle only) also as tuple members, extra attributes, copies of components with a different fixed value, edit-after-freeze "
+                "of index order; oracle only), shared priors, float and int constants, arithmetic priors (+ * / - neg abs, nested, in the Coq "
+                "model; ** oracle only) also as tuple members, extra attributes, copies of components with a different fixed value, edit-after-freeze "
                 "histories; priors created in an order unrelated to path order; one vector within limits, one unit vector and one dictionary of "
                 "freely chosen paths per program phase. Non-trivial: >= 2 priors and at least one of shared prior, nesting, tuple, arithmetic, "
                 "constant. Distinct = distinct (program, vector).")
@@ -651,10 +730,7 @@ def run(ctx):
             dz = has_division_by_zero(root, vmap)
             if dz:
                 ctx.hist("instance-comparison-skipped", "division-by-zero")
-            ops2 = uses_ops2(root)
-            if ops2:
-                ctx.hist("two-sided-abstraction", "skipped: - ** neg abs have no ModelTree node (oracle only)")
-            elif not MG.same_tree(MG.expected_tree(root), ro["tree"]):
+            if not MG.same_tree(MG.expected_tree(root), ro["tree"]):
                 ctx.oracle["failures"] += 1
                 ctx.failure("correspondence", "[%s] the composition API built a different object graph than the program denotes" % phase,
                             c, classes=cls, impl=ro["tree"], broken={"kind": "correspondence", "name": "two-sided abstraction"})
@@ -667,9 +743,15 @@ def run(ctx):
                 ctx.failure("oracle", "[%s] %s" % (phase, msg), c, classes=cls,
                             impl={k: ro.get(k) for k in ("paths", "upaths", "count", "ids", "inst", "pv", "inst_paths", "inst_paths_any", "vec_from_unit",
                                                         "inst_unit", "resolve", "acc")})
-            if ops2 or not MG.tree_ok_for_model(ro["tree"]):
-                ctx.hist("coq-correspondence", "not sent: array / - ** neg abs / reserved attribute name")
+            if not MG.tree_ok_for_model(ro["tree"]):
+                ctx.hist("coq-correspondence", "not sent: array / ** / Log / Log10 / reserved attribute name")
+                if any_node(root, lambda e_: e_["t"] == "unary" and e_["op"] in ("log", "log10")):
+                    ctx.hist("oracle-only forms", "af.Log / af.Log10 (value = numpy log of the operand's value)")
+                if uses_pow(root):
+                    ctx.hist("oracle-only forms", "**")
                 continue
+            for f_ in sorted(tree_features(ro["tree"])):
+                ctx.hist("coq-correspondence:unary-features", f_)
             coq_rcases.append(coq_rcase(ro, vec_hex, root))
             coq_ridx.append((i, phase))
             ok_inst = "ok" in ro["inst"] and "ok" in ro["inst_paths_any"]
@@ -678,7 +760,13 @@ def run(ctx):
                 coq_idx.append((i, phase))
                 ctx.hist("coq-correspondence", "advertised order / count only (no instance)")
             else:
-                coq_cases.append(coq_case(ro, vec_hex))
+                # a zero divisor among the values the priors return for the unit vector: the code computes with numpy floats
+                # there (inf / nan instead of ZeroDivisionError) -- outside the modelled domain, as in the oracle
+                dzu = "ok" in ro["vec_from_unit"] and has_division_by_zero(
+                    root, dict(zip(refs, [unhex(x) for x in ro["vec_from_unit"]["ok"]])))
+                if dzu:
+                    ctx.hist("coq-correspondence", "unit instance not compared (division by zero on the priors' values)")
+                coq_cases.append(coq_case(ro, vec_hex, cmp_unit=not dzu))
                 coq_idx.append((i, phase))
                 ctx.hist("coq-correspondence", "full")
         if i % 40 == 0:
